@@ -186,6 +186,11 @@ class ISD(model.Document):
 
   def _region_always_has_background(region: typing.Type[model.Region]) -> bool:
 
+    # the specified values below can be overridden by animation steps at any time
+
+    if next(region.iter_animation_steps(), None) is not None:
+      return True
+
     if region.get_style(styles.StyleProperties.Opacity) == 0:
       return False
 
